@@ -6,7 +6,7 @@ from lib import gpgen
 from py2v import units_chol, units_gp
 
 PROP = "C17"
-PROPS_FILES = ["Props/C17.v"]
+PROPS_FILES = ["Props/C17.v", "Props/C05_qei.v"]
 ASSUMPTIONS = [
   "exact arithmetic over a real closed field; rounding is outside the model (searcher tolerance 1e-9 * n * |A|)",
   "LAPACK contracts: successful cholesky => L L^T = a; svd of a symmetric PSD matrix => U diag(E) U^T = a with E >= 0; qr(B, mode='r') => R^T R = B^T B",
@@ -26,6 +26,16 @@ DESIGN_REF = "DESIGN.md section 7, C17"
 
 def generate(ctx):
   return units_chol.generate(ctx) + units_gp.generate(ctx)
+
+
+def correspondence(ctx):
+  """The third anchored mechanism, 'factor of the joint covariance of candidate and pending points' in
+  ExpectedParallelImprovement._evaluate_at_point_list: which factor, which means and which draws every candidate set gets is the
+  executable model Model/ParallelEI.v (theorems in Props/C05_qei.v), tied to the running code by the exact correspondence built for C05."""
+  from props import C05 as c05
+  qc = c05.qei_correspondence(ctx)
+  return dict(evaluations=qc["evaluations"], distinct_nontrivial=qc["distinct"], rule=qc["rule"], samples=qc["samples"], distribution=qc["distribution"],
+              disagreements=qc["disagreements"])
 
 
 def build_matrix(inp):
@@ -121,7 +131,7 @@ def gen_input(rng, samples_ok):
       gi["tikhonov"] = rng.choice([1e-3, 0.05, 0.05])
     k = rng.randint(1, 2)
     return dict(kind="samples", gp=gi, seed=rng.randrange(10 ** 6), draws=4000, repeat_point=rng.random() < 0.4,
-                sum=[rng.uniform(0.2, 0.8), rng.uniform(0.2, 0.8)] if rng.random() < 0.3 else None,
+                sum=[rng.choice([rng.uniform(0.2, 0.8), -rng.uniform(0.2, 0.8), 0.0]), rng.uniform(0.2, 0.8)] if rng.random() < 0.3 else None,
                 entry=rng.choice(["of_points", "of_points", "training"]), steps=rng.choice([[], [], ["draw"], ["draw", "append_lie"], ["draw", "update"]]),
                 extra_points=[[rng.uniform(0, 1) for _ in range(dim)] for _ in range(k)], extra_values=[rng.uniform(-1, 1) for _ in range(k)])
   n = rng.randint(1, 9)
@@ -132,6 +142,15 @@ def gen_input(rng, samples_ok):
 
 def search(ctx, hints, broken):
   fails, n = [], 0
+  from props import C05 as c05
+  qin = [h["input"] for h in hints if isinstance(h.get("input"), dict) and h["input"].get("kind") == "qei"]
+  for inp in qin + [c05.gen_qei_case(ctx.rng) for _ in range(ctx.n(40, 600))]:   # parallel EI: per-set factor / means / draws (exact Fractions oracle)
+    n += 1
+    r = c05.qei_oracle(inp)
+    if r:
+      r = dict(r, signature=r["signature"].replace("C05:", "C17:", 1))
+      if r["signature"] not in {f["signature"] for f in fails}:
+        fails.append(r)
   for _ in range(ctx.n(800, 12000) * (3 if broken else 1)):
     inp = gen_input(ctx.rng, True)
     n += 1
@@ -148,4 +167,8 @@ def search(ctx, hints, broken):
 
 
 def replay(ctx, payload):
+  if isinstance(payload.get("input"), dict) and payload["input"].get("kind") == "qei":
+    from props import C05 as c05
+    r = c05.qei_oracle(payload["input"])
+    return dict(r, signature=r["signature"].replace("C05:", "C17:", 1)) if r else None
   return oracle(payload["input"])
